@@ -392,7 +392,7 @@ def ResetNoise(
 
     def _get_kraus_operator_sequence(p0: float, p1: float) -> KrausOperatorSequence:
         return (
-            np.sqrt(1 - p0 - p1) * np.array([[1, 0], [0, 1]]),
+            np.sqrt(max(0.0, 1 - p0 - p1)) * np.array([[1, 0], [0, 1]]),
             np.sqrt(p0) * np.array([[1, 0], [0, 0]]),
             np.sqrt(p0) * np.array([[0, 1], [0, 0]]),
             np.sqrt(p1) * np.array([[0, 0], [1, 0]]),
@@ -507,10 +507,10 @@ def PhaseAmplitudeDampingNoise(
         prate: float, arate: float, esp: float
     ) -> KrausOperatorSequence:
         return (
-            np.sqrt(1 - esp) * np.array([[1, 0], [0, np.sqrt(1 - arate - prate)]]),
+            np.sqrt(1 - esp) * np.array([[1, 0], [0, np.sqrt(max(0.0, 1 - arate - prate))]]),
             np.sqrt(1 - esp) * np.array([[0, np.sqrt(arate)], [0, 0]]),
             np.sqrt(1 - esp) * np.array([[0, 0], [0, np.sqrt(prate)]]),
-            np.sqrt(esp) * np.array([[np.sqrt(1 - arate - prate), 0], [0, 1]]),
+            np.sqrt(esp) * np.array([[np.sqrt(max(0.0, 1 - arate - prate)), 0], [0, 1]]),
             np.sqrt(esp) * np.array([[0, 0], [np.sqrt(arate), 0]]),
             np.sqrt(esp) * np.array([[np.sqrt(prate), 0], [0, 0]]),
         )
